@@ -117,3 +117,11 @@ def ensemble_constructor_establishes_invariant(vc):
 from contracts.c08_tempering import worker_update_position as _wup, tempering_native as _tn
 contract("C03", "tempering_worker_update_position", native=False, replay_with="tempering_native")(_wup)
 bounded("C03", "tempering_native", native_runs=3)(_tn)
+
+
+# the recorded log-probabilities of a reloaded chain must belong to the temperature it was saved with: the round-trip contracts of C09
+# carry the clause "inverse temperature restored" (and the stored log-probabilities), checked under this property as well
+from contracts.c09_persistence import gibbs_roundtrip as _gr3, pca_roundtrip as _pr3, hmc_roundtrip as _hr3
+contract("C03", "gibbs_roundtrip", native=False, replay_with="chain_invariant_native")(_gr3)
+contract("C03", "pca_roundtrip", native=False, replay_with="chain_invariant_native")(_pr3)
+contract("C03", "hmc_roundtrip", native=False, replay_with="chain_invariant_native")(_hr3)
